@@ -1635,8 +1635,12 @@ class System:
             for item in model.calls.init_seq:
                 if isinstance(item, list):
                     name_concat = '_'.join(item)
-                    model.calls.ii[name_concat] = pycode_model.__dict__[name_concat + '_ii']
-                    model.calls.ij[name_concat] = pycode_model.__dict__[name_concat + '_ij']
+                elif item in model.calls.ii_args:
+                    name_concat = item
+                else:
+                    continue
+                model.calls.ii[name_concat] = pycode_model.__dict__[name_concat + '_ii']
+                model.calls.ij[name_concat] = pycode_model.__dict__[name_concat + '_ij']
 
             # load Jacobian functions
             for jname in model.calls.j_names:
